@@ -33,7 +33,8 @@ func unsupported_() []*Unsupported {
 		return func() *Config { c := baseConfig(types...); c.DurationType = nil; return c }
 	}
 	ok := func() *M { return msg("Ok", nil, fld("Str", TString), fld("Num", TInt64)) }
-	return []*Unsupported{
+	last := func() *M { return msg("Zlast", nil, fld("Str", TString), mfld("O", "Ok")) }
+	us := []*Unsupported{
 		{Name: "U-time-depth0", Cfg: noTime("U", "Ok"), Broken: []string{"U"}, Intact: []string{"Ok"}, Exclude: []string{"U.Bad"},
 			File: func() *FileSpec {
 				return &FileSpec{Name: "p.proto", Msgs: []*M{ok(), msg("U", nil, fld("Str", TString), tsfld("Bad"), fld("After", TInt64))}}
@@ -56,6 +57,17 @@ func unsupported_() []*Unsupported {
 				return &FileSpec{Name: "p.proto", Msgs: []*M{ok(), msg("U", nil, fld("Str", TString), mapfld("Bad", tsfld("v")))}}
 			}},
 	}
+	// the same shapes with a further selected type declared after the broken one
+	var more []*Unsupported
+	for _, u := range us {
+		u := u
+		cfg := u.Cfg
+		file := u.File
+		more = append(more, &Unsupported{Name: u.Name + "+later-type", Broken: u.Broken, Intact: append(append([]string{}, u.Intact...), "Zlast"), Exclude: u.Exclude,
+			Cfg:  func() *Config { c := cfg(); c.Types = append(c.Types, "Zlast"); return c },
+			File: func() *FileSpec { f := file(); f.Msgs = append(f.Msgs, last()); return f }})
+	}
+	return append(us, more...)
 }
 
 // Selection: a `types` selection over a corpus program; exactly the three functions of every selected
